@@ -14,10 +14,11 @@ CONSTANTS KeyLen,      \* keys are all bit strings of length <= KeyLen
           Acts,        \* alphabet: set of action names
           MaxCount,    \* state constraint: at most this many entries
           EmitActs,    \* print one JSON row per transition whose action is in this set
+          EntryDepth,  \* maximal number of calls on one entry handle
           ViewAcct     \* TRUE: states differing in arena length / free-list size are distinct
 
-VARIABLES m, abs, ev, ret, pan, aret, hist, canon
-vars == <<m, abs, ev, ret, pan, aret, hist, canon>>
+VARIABLES m, abs, ev, ret, pan, aret, apan, hist, canon
+vars == <<m, abs, ev, ret, pan, aret, apan, hist, canon>>
 
 RECURSIVE BitSeqs(_)
 BitSeqs(k) == IF k = 0 THEN {<<>>}
@@ -28,27 +29,45 @@ Keys  == {<<>>} \cup {Base \o s : s \in BitSeqs(KeyLen)}
 Pfxs  == {Pfx(n, h) : n \in Keys, h \in Hosts}
 StoredKeys == {e.n : e \in abs}
 
+\* sessions on one entry handle: up to EntryDepth calls, applicable to the handle's kind,
+\* ending with the first consuming call; nothing after o_remove (that is finding F7)
+OpArgs(o) == CASE o \in {"get", "key", "or_default", "o_key", "o_get", "o_remove", "v_key", "v_default"} -> {-1}
+               [] o \in {"get_mut", "insert", "or_insert", "o_get_mut", "o_insert", "v_insert"} -> Vals
+               [] o \in {"and_modify", "or_insert_with", "v_insert_with"} -> Vals \cup {PanicArg}
+OpsFor(kind) == UNION {{[o |-> o, v |-> v] : v \in OpArgs(o)} :
+                        o \in EntryOps \cup (IF kind = "O" THEN OccOps ELSE VacOps)}
+RECURSIVE SeqsUpTo(_, _)
+SeqsUpTo(S, n) == IF n = 0 THEN {<<>>}
+                  ELSE {<<>>} \cup {<<x>> \o t : x \in {y \in S : y.o \notin Consuming /\ y.o # "o_remove"},
+                                                t \in SeqsUpTo(S, n - 1) \ {<<>>}}
+                              \cup {<<x>> : x \in S}
+EntrySeqs(p) == SeqsUpTo(OpsFor(IF p.n \in StoredKeys THEN "O" ELSE "V"), EntryDepth)
+
 EventsOf(a) ==
     CASE a = "Insert" -> {[a |-> a, p |-> p, v |-> v] : p \in Pfxs, v \in Vals}
       [] a \in {"Remove", "RemoveKeepTree", "RemoveChildren"} \cup (Observers \ {"Iter", "Len"})
                       -> {[a |-> a, p |-> p] : p \in Pfxs}
       [] a \in {"Clear", "Iter", "Len"} -> {[a |-> a]}
+      [] a \in {"GetMut", "LpmMut"} -> {[a |-> a, p |-> p, v |-> v] : p \in Pfxs, v \in Vals}
+      [] a \in {"IterMut", "ValuesMut"} -> {[a |-> a, k |-> k] : k \in 0..Cardinality(abs)}
+      [] a = "ChildrenMut" -> {[a |-> a, p |-> p, k |-> k] : p \in Pfxs, k \in 0..Cardinality(abs)}
+      [] a = "Entry" -> UNION {{[a |-> a, p |-> p, ops |-> ops] : ops \in EntrySeqs(p)} : p \in Pfxs}
       [] a = "Retain" -> {[a |-> a, keep |-> K, panicAt |-> 0] : K \in SUBSET StoredKeys}
       [] a = "RetainPanic" -> {[a |-> "Retain", keep |-> K, panicAt |-> k] :
                                    K \in SUBSET StoredKeys, k \in 1..Cardinality(StoredKeys)}
 AllEvents == UNION {EventsOf(a) : a \in Acts}
 
 Init == /\ m = EmptyMap /\ abs = {} /\ ev = [a |-> "Init"] /\ ret = <<>> /\ pan = FALSE
-        /\ aret = <<>> /\ hist = <<>> /\ canon = TRUE
+        /\ aret = <<>> /\ apan = FALSE /\ hist = <<>> /\ canon = TRUE
 
 Next == \E e \in AllEvents :
           LET r  == Apply(m, e)
               ar == AbsApply(abs, e, r)
           IN /\ m' = r.m /\ ret' = r.ret /\ pan' = r.pan
-             /\ abs' = ar.E /\ aret' = ar.ret
+             /\ abs' = ar.E /\ aret' = ar.ret /\ apan' = ar.pan
              /\ ev' = e
              /\ hist' = IF e.a \in Observers THEN hist ELSE Append(hist, e)
-             /\ canon' = IF IsClear(e) THEN TRUE ELSE canon /\ e.a \in CanonKeeping
+             /\ canon' = IF IsClear(e) THEN TRUE ELSE canon /\ CanonKeeps(e)
 
 Spec == Init /\ [][Next]_vars
 
@@ -65,12 +84,11 @@ InvCanon     == canon => CanonShape(m) /\ Compact(m)         \* C15
 (* ---- transition properties (checked on every generated transition) ------- *)
 RECURSIVE Shape(_, _)
 Shape(mm, i) == IF i = 0 THEN <<>> ELSE <<mm.a[i].p.n, Shape(mm, mm.a[i].l), Shape(mm, mm.a[i].r)>>
-ShapeKeeping == {"RemoveKeepTree"} \cup Observers
 
-StepRetOK  == RetAgrees(ev', [ret |-> ret', pan |-> pan'], [ret |-> aret'])        \* C01 ...
+StepRetOK  == RetAgrees(ev', [ret |-> ret', pan |-> pan'], [ret |-> aret', pan |-> apan'])        \* C01 ...
 StepGrowOK == ~IsClear(ev') =>                                                     \* C16
                 Len(m'.a) = MaxI(Len(m.a), Cardinality(Reach(m')))
-StepShapeOK == ev'.a \in ShapeKeeping => Shape(m', 1) = Shape(m, 1)                  \* C15
+StepShapeOK == ShapeKeeps(ev') => Shape(m', 1) = Shape(m, 1)                  \* C15
 PropRet   == [][StepRetOK]_vars
 PropGrow  == [][StepGrowOK]_vars
 PropShape == [][StepShapeOK]_vars
